@@ -1,12 +1,13 @@
 //! HIST engine of C07: executes one operation history on the real wrapper
 //! and, side by side, on a plain `InMemory` reference store; compares every
 //! result class, then runs the read battery on the live wrapper (warm
-//! metadata cache) and on a fresh wrapper instance over the same inner store
-//! (cold cache).
+//! metadata cache), on a fresh wrapper instance over the same inner store
+//! (cold cache) and, for the keys the last operation replaced, on an
+//! instance whose metadata cache still holds the previous commit.
 
 use crate::battery::{self, Obs, Rd, Rng};
 use crate::fix::{Class, KEYS, Wrap, build, h128, key};
-use crate::ops::{Book, Mode, Op, OpOut, Tok, apply, observe};
+use crate::ops::{Book, Commit, Mode, Op, OpOut, Tok, apply, observe};
 use object_store::{ObjectStoreExt, memory::InMemory};
 use serde_json::{Value, json};
 use std::collections::{BTreeMap, HashSet};
@@ -22,6 +23,10 @@ pub struct NodeOut {
     pub reads: u64,
     /// mutations executed on the wrapper
     pub ops: u64,
+    /// gets answered by the lagging instance and judged
+    pub lag_reads: u64,
+    /// ... of which refused on the strength of the commit it had cached
+    pub lag_refused_on_cached_commit: u64,
     /// hash of every token any wrapper commit of this execution returned
     pub tokens: Vec<u128>,
     /// canonical reference content + token-chain shape after the history
@@ -121,9 +126,13 @@ fn tolerated_op(op: &Op, present: bool, r: &OpOut, w: &OpOut) -> Option<&'static
     }
 }
 
-pub fn run_node(wrap: Wrap, hist: &[Op], clock: u64, want_sample: bool) -> NodeOut {
+/// `lag_all`: the lagging instance is asked every get and every in-bounds
+/// get_ranges of the battery; otherwise every get that carries a condition,
+/// the plain get, head and the offset / suffix / empty ranges (not the plain
+/// bounded pairs), and the in-bounds get_ranges calls of three ranges.
+pub fn run_node(wrap: Wrap, hist: &[Op], clock: u64, want_sample: bool, lag_all: bool) -> NodeOut {
     let r = std::panic::catch_unwind(std::panic::AssertUnwindSafe(|| {
-        util::block_on(run_node_async(wrap, hist, clock, want_sample))
+        util::block_on(run_node_async(wrap, hist, clock, want_sample, lag_all))
     }));
     match r {
         Ok(out) => out,
@@ -141,7 +150,7 @@ pub fn run_node(wrap: Wrap, hist: &[Op], clock: u64, want_sample: bool) -> NodeO
     }
 }
 
-async fn run_node_async(wrap: Wrap, hist: &[Op], clock: u64, want_sample: bool) -> NodeOut {
+async fn run_node_async(wrap: Wrap, hist: &[Op], clock: u64, want_sample: bool, lag_all: bool) -> NodeOut {
     anda_db_utils::verif::set_clock(Some((clock, CLOCK_STEP_MS)));
     let mut out = NodeOut::default();
     let cs = wrap.cs();
@@ -154,9 +163,16 @@ async fn run_node_async(wrap: Wrap, hist: &[Op], clock: u64, want_sample: bool) 
     let mut last_ok = false;
     // (last_modified, operation) of the latest commit so far
     let mut newest: Option<(chrono::DateTime<chrono::Utc>, String)> = None;
+    // The backend content and the wrapper's book right before the last
+    // operation: what a second instance over the same backend would have in
+    // its metadata cache had it read the keys at that moment.
+    let mut before: Option<(Arc<InMemory>, Book)> = None;
 
     for (i, op) in hist.iter().enumerate() {
         let upto = &hist[..=i];
+        if i + 1 == hist.len() {
+            before = Some((Arc::new(inner.fork()), wb.clone()));
+        }
         let present = rb.present(op.target());
         // Reference quirk: the default `rename_opts` (copy, then delete the
         // source) destroys the object when from == to. The wrappers leave it
@@ -342,8 +358,99 @@ async fn run_node_async(wrap: Wrap, hist: &[Op], clock: u64, want_sample: bool) 
     let mut warm_obs: Vec<Obs> = Vec::with_capacity(reads.len());
     let mut cold_obs: Vec<Obs> = Vec::with_capacity(reads.len());
     let mut class_hist: BTreeMap<String, u64> = BTreeMap::new();
+    let mut lag_reads: Vec<Rd> = Vec::new();
+    let mut lag_obs: Vec<Obs> = Vec::new();
+    // keys that had a commit before the last operation which is not their latest commit any more
+    let mut replaced = [false; 3];
+    let lagging = before.as_ref().map(|(b, book_before)| {
+        for k in 0..3usize {
+            replaced[k] = match (&book_before.latest[k], &wb.latest[k]) {
+                (Some(old), Some(new)) => old.token != new.token,
+                (Some(_), None) => true,
+                (None, _) => false,
+            };
+        }
+        let then = crate::lag::Then::new(b.clone(), inner.clone());
+        let l = build(wrap, then.clone());
+        (then, l)
+    });
     for rd in &reads {
         let ro = battery::exec(reference.as_ref(), &rb, rd).await;
+        // Every get / head / ranged get with every condition on a key whose
+        // commit the last operation replaced or removed, also through a
+        // LAGGING instance: one whose metadata cache holds the key's previous
+        // commit. It got there by reading the key (head) while the backend
+        // showed the content before the last operation - again before every
+        // request, since the first read that goes for the payload heals the
+        // cache. It answers like the reference does now, or it refuses the
+        // request exactly as the commit it has cached decides it
+        // (preconditions, range validity: cache lag, by design). A request
+        // it does not refuse goes for the payload, finds the cached
+        // generation gone and must be answered - conditions included - from
+        // the current commit.
+        // Likewise get_ranges calls the reference answers with bytes (all
+        // ranges inside the current object): refused only when a range is
+        // invalid for the size of the cached commit.
+        let lag_key: Option<u8> = match rd {
+            Rd::Get(g)
+                if lag_all
+                    || g.im.is_some()
+                    || g.inm.is_some()
+                    || g.ims.is_some()
+                    || g.ius.is_some()
+                    || !matches!(g.range, Some(Rng::B(a, b)) if a < b) =>
+            {
+                Some(g.key)
+            }
+            Rd::Ranges { key: k, rs }
+                if (lag_all || rs.len() >= 3)
+                    && lens[*k as usize].is_some_and(|len| rs.iter().all(|(a, b)| a < b && *b <= len)) =>
+            {
+                Some(*k)
+            }
+            _ => None,
+        };
+        if let (Some(k), Some((then, l))) = (lag_key, &lagging)
+            && replaced[k as usize]
+        {
+            then.show_before(true);
+            let cached: Option<Commit> = observe(l.as_ref(), k).await.ok();
+            then.show_before(false);
+            let wo = battery::exec(l.as_ref(), &wb, rd).await;
+            out.lag_reads += 1;
+            if let Some(what) = battery::differs(&ro, &wo) {
+                let on_cached = cached.as_ref().and_then(|c| match rd {
+                    Rd::Get(g) => battery::decided_on_commit(&wb, g, c),
+                    Rd::Ranges { rs, .. } if rs.iter().any(|(a, b)| *a >= c.size || *b > c.size) => Some(Class::Other),
+                    _ => None,
+                });
+                if wo.class() != Class::Ok && on_cached == Some(wo.class()) {
+                    out.lag_refused_on_cached_commit += 1;
+                } else {
+                    out.violations.push(viol(
+                        wrap,
+                        hist,
+                        clock,
+                        "lagging-read",
+                        &format!("{}/{}/{}", rd.kind(), shape(rd, &lens), what),
+                        format!(
+                            "an instance that read {} before the last operation: {} differs from the reference in {what}: impl {:?} {} {:?} / ref {:?} {} {:?}; decided on the commit it had cached: {:?}",
+                            KEYS[k as usize],
+                            serde_json::to_string(rd).unwrap_or_default(),
+                            wo.class(),
+                            wo.err,
+                            wo.bodies.iter().map(|b| b.len()).collect::<Vec<_>>(),
+                            ro.class(),
+                            ro.err,
+                            ro.bodies.iter().map(|b| b.len()).collect::<Vec<_>>(),
+                            on_cached
+                        ),
+                    ));
+                }
+            }
+            lag_reads.push(rd.clone());
+            lag_obs.push(wo);
+        }
         for (name, store, sink) in [("warm", &warm, &mut warm_obs), ("cold", &cold, &mut cold_obs)] {
             let wo = battery::exec(store.as_ref(), &wb, rd).await;
             out.reads += 1;
@@ -384,6 +491,18 @@ async fn run_node_async(wrap: Wrap, hist: &[Op], clock: u64, want_sample: bool) 
                 format!("{name} cache: {}", bad.text),
             ));
         }
+    }
+
+    // whatever the lagging instance answered with metadata describes the latest commit
+    if let Some(bad) = battery::consistency(&wb, &lag_reads, &lag_obs) {
+        out.violations.push(viol(
+            wrap,
+            hist,
+            clock,
+            "commit-consistency",
+            &format!("lagging/{}/{}", bad.read, bad.field),
+            format!("lagging instance: {}", bad.text),
+        ));
     }
 
     // canonical state: reference content + shape of each key's token chain
